@@ -8,6 +8,21 @@ COMMON_ASSUME = [
 ]
 
 PROPS = {
+    "C10": {
+        "units": [{"pkg": "./c10", "shards": 8, "shards_thorough": 16, "timeout": 900}],
+        "fuzz": [{"pkg": "./c10", "target": "FuzzC10ReadServerName", "time": "600s"}],
+        "rule": ("(1) ClientHellos emitted by crypto/tls clients with rapid-generated configs (server names 1-249 bytes in any case, underscores, punycode, trailing dot, IP literal => no SNI; ALPN lists; "
+                 "cipher-suite and curve subsets incl. X25519MLKEM768; min/max version 1.0-1.3; tickets on/off; resumption hellos carrying a ticket/PSK from an in-process server); (2) hellos marshalled by a harness "
+                 "builder from crypto/tls extension payloads: arbitrary extension order, GREASE/unknown types, padding 0-4000 bytes, SNI lists with foreign name types, no SNI, no extension block, record longer than the "
+                 "handshake; (3) 1-4 byte corruptions inside the handshake body; (4) every truncation point of every hello of (1)-(2); (5) arbitrary 0-12 byte record/handshake headers. Oracle: the same bytes fed to a "
+                 "crypto/tls server (GetConfigForClient records ServerName): whenever it accepts, fabio must accept with the same name; builder knows the name it wrote; buffer size == 9 + handshake length <= 5 + record "
+                 "length and accepted iff the header is a valid single-record ClientHello header; no panic anywhere. Non-trivial = well-formed hello with >=3 extensions (distinct by bytes after the random), plus distinct "
+                 "corrupted bodies and accepted headers."),
+        "technique": "rapid property tests, differential against crypto/tls on generated, built, corrupted and truncated ClientHellos; native go fuzzing (thorough)",
+        "level_text": "Differential testing of fabio's ClientHello parser against the Go TLS stack over generated client configurations, harness-built hellos and corruptions, plus an exhaustive truncation sweep per hello and header-space sampling of the buffer-size function. Exploration only.",
+        "level_note": "Single-record hellos only (fabio documents that fragmentation is unsupported); 'well-formed' = accepted by crypto/tls's parser far enough to call GetConfigForClient.",
+        "assumptions": COMMON_ASSUME + ["crypto/tls of the pinned Go toolchain is the reference TLS stack"],
+    },
     "C02": {
         "units": [
             {"pkg": "./c02", "shards": 6, "shards_thorough": 16, "timeout": 900},
